@@ -255,6 +255,12 @@ func newChecker(o *storage.LookupOptions, op *predicate.Predicate) *checker {
 // CheckGlobalTimeBounds checks if a predicate should be considered given the global
 // time bounds.
 func (c *checker) CheckGlobalTimeBounds(p *predicate.Predicate) bool {
+	// The indices are keyed by the predicate ID only (PartialUUID), so a bucket
+	// mixes immutable and temporal predicates: a looked up predicate only
+	// matches the stored ones of its own kind.
+	if c.op != nil && c.op.Type() != p.Type() {
+		return false
+	}
 	if p.Type() == predicate.Immutable {
 		return true
 	}
